@@ -25,7 +25,7 @@ def plan(tier, seed):
                            "sievelib.parser.Parser.parse (error / error_pos assembly)"] + PARSER_FUNCS[2:],
                 bounds={"U1": "every byte string of length <= %d and every position" % (4 if q else 6),
                         "U2": "%d valid multi-line prefixes (comments, multi-byte text) x 0-3 blank lines x 0-3 leading spaces x "
-                              "LF/CRLF x %d offending tokens (every class in the statement) x %d different continuations"
+                              "LF/CRLF x %d offending tokens (every class in the statement, plus 13 rejections of the 'every other' kind) x %d different continuations"
                               % (H.NP, H.NO, len(H.SUFFIXES)),
                         "U3 (other rejections)": b3 + "; " + T4_BOUND},
                 outside=["scripts larger than the templates", "columns count bytes, as the statement says"],
